@@ -18,6 +18,11 @@ Same functions under contract as C15 (contracts/c15.py holds the shared machiner
         call of the generated function and no escape() is applied; so the Output that receives it applies
         escape(Markup) = Markup (dependency spec, checked on the installed MarkupSafe by C16.once.dependency) and with
         autoescape off str(str) = str.
+  C16.once.wrappers.emitted.<visitor>  the wrappers the COMPILER writes (return_buffer_contents in the recursive `loop` function of
+        visit_For, the block-filter argument of visit_Filter, the set block of visit_AssignBlock, macro bodies): concat(<frame buffer>)
+        is handed over as Markup(concat(buf)) exactly when autoescape is on for the frame, as plain concat(buf) when it is off, by a
+        run-time test when the frame is volatile; only a macro body returns the plain text (Macro._invoke wraps it).  Plus a table over the
+        call sites of return_buffer_contents: force_unescaped=True in macro_body only.
   C16.once.dependency        bounded check of the dependency specs on the installed MarkupSafe:
         escape(Markup(x)) is Markup(x); str(s) is s; unescape(escape(s)) == s.
 Lemma (argued in DESIGN section 5): for escaping-neutral templates unescape(render_on) == render_off.
@@ -219,6 +224,152 @@ def escape_inventory(task, tier, seed):
 
 
 # =====================================================================================================
+# C16.once.wrappers.emitted : the wrappers written by the compiler (return_buffer_contents and friends)
+# =====================================================================================================
+# Every emitted function / expression whose value re-enters an Output hands over concat(<frame buffer>) as
+#   Markup(concat(buf))                                             frame not volatile, autoescape on
+#   concat(buf)                                                     frame not volatile, autoescape off
+#   a form decided by context.eval_ctx.autoescape at run time       volatile frame (also accepted in a non-volatile frame: assumption M)
+# The only exception is a macro body (`def macro`): it returns the plain concat because Macro._invoke wraps the result
+# (C16.once.wrappers.Macro._invoke).  A recursive loop function that returned the plain text under autoescape would be
+# escaped once more by the Output that receives loop(...) at every recursion level.
+
+def _norm_buf(text):
+    return re.sub(r"concat\((?:t_buf|t_\d+|None)\)", "concat(B)", text)
+
+
+DYNAMIC_FORMS = {"Markup(concat(B)) if context.eval_ctx.autoescape else concat(B)", "(Markup if context.eval_ctx.autoescape else identity)(concat(B))"}
+
+
+def emitted_wrapper_pred(sc, tree, ph, txt):
+    if sc.outcome == "raise" or tree is None:
+        return []
+    vis = sc.st.get(sc.node).cls.__name__
+    par = emit.parents(tree)
+    volatile, not_volatile = K.holds(sc, VOLATILE), K.holds(sc, z3.Not(VOLATILE))
+    on, off = K.holds(sc, AUTOESCAPE), K.holds(sc, z3.Not(AUTOESCAPE))
+    fails = []
+    seen_branches = {}
+    for n in ast.walk(tree):
+        if not K._is_concat_of_buffer(n):
+            continue
+        top = n
+        while top in par:
+            p = par[top]
+            if isinstance(p, ast.Call) and top in p.args and ((isinstance(p.func, ast.Name) and p.func.id == "Markup") or isinstance(p.func, ast.IfExp)):
+                top = p
+            elif isinstance(p, ast.IfExp) and (top is p.body or top is p.orelse) and ast.unparse(p.test) == K.RUNTIME_FLAG:
+                top = p
+            else:
+                break
+        text = _norm_buf(ast.unparse(top))
+        # enclosing statement / function
+        stmt = top
+        while stmt in par and not isinstance(stmt, ast.stmt):
+            stmt = par[stmt]
+        fn = stmt
+        while fn in par and not isinstance(fn, (ast.FunctionDef, ast.AsyncFunctionDef)):
+            fn = par[fn]
+        fname = fn.name if isinstance(fn, (ast.FunctionDef, ast.AsyncFunctionDef)) else None
+        guard = None
+        g = par.get(stmt)
+        if isinstance(stmt, ast.Return) and isinstance(g, ast.If) and ast.unparse(g.test) == K.RUNTIME_FLAG:
+            guard = "true" if any(stmt is b for b in g.body) else "false"
+        if text in DYNAMIC_FORMS:
+            form = "dynamic"
+        elif text == "Markup(concat(B))":
+            form = "dynamic-true" if guard == "true" else "markup"
+            if guard == "false":
+                form = "bad:Markup in the else branch of the run-time test"
+        elif text == "concat(B)":
+            form = "dynamic-false" if guard == "false" else "plain"
+            if guard == "true":
+                form = "bad:plain text in the true branch of the run-time test"
+        else:
+            form = "bad:" + text[:70]
+        where = f"`{fname}` function" if fname else f"visit_{vis} expression"
+        if form.startswith("bad:"):
+            fails.append(f"[wrapper-shape:{vis}] {where}: buffer contents handed over as {form[4:]!r}")
+            continue
+        if guard:
+            seen_branches.setdefault(id(g), set()).add(guard)
+        if fname == "macro":
+            if form != "plain":
+                fails.append(f"[macro-body:{vis}] the macro body returns {text!r}: the Markup wrapping belongs to Macro._invoke (it would be applied twice / by the wrong flag)")
+            continue
+        if form.startswith("dynamic"):
+            continue
+        if not (volatile or not_volatile) or volatile:
+            fails.append(f"[wrapper-static-in-volatile:{vis}] {where}: {text!r} is chosen at compile time although the frame "
+                         f"{'is volatile' if volatile else 'may be volatile'}")
+        elif not off and form != "markup":
+            fails.append(f"[wrapper-plain-under-autoescape:{vis}] {where} hands over the plain text {text!r} although autoescape is on for its frame: "
+                         f"the Output that receives the value escapes it a second time")
+        elif not on and form != "plain":
+            fails.append(f"[wrapper-markup-without-autoescape:{vis}] {where} hands over {text!r} although autoescape is off for its frame")
+    for gid, br in seen_branches.items():
+        if br != {"true", "false"}:
+            fails.append(f"[wrapper-shape:{vis}] the run-time test has only the {sorted(br)} branch")
+    return fails
+
+
+def force_unescaped_sites(task, tier, seed):
+    """call sites of CodeGenerator.return_buffer_contents: force_unescaped is True for the macro body only"""
+    import os
+    path = os.path.join(os.path.dirname(jinja2.__file__), "compiler.py")
+    tree = ast.parse(open(path, encoding="utf-8").read())
+    rs = []
+    n_sites = 0
+
+    def walk(node, qual):
+        nonlocal n_sites
+        for ch in ast.iter_child_nodes(node):
+            q = qual + [ch.name] if isinstance(ch, (ast.FunctionDef, ast.AsyncFunctionDef, ast.ClassDef)) else qual
+            if isinstance(ch, ast.Call) and isinstance(ch.func, ast.Attribute) and ch.func.attr == "return_buffer_contents":
+                n_sites += 1
+                fu = [k.value for k in ch.keywords if k.arg == "force_unescaped"] + list(ch.args[1:2])
+                where = ".".join(qual)
+                if where.endswith("macro_body"):
+                    ok = len(fu) == 1 and isinstance(fu[0], ast.Constant) and fu[0].value is True
+                    want = "True (Macro._invoke wraps the result)"
+                else:
+                    ok = not fu or (isinstance(fu[0], ast.Constant) and fu[0].value is False)
+                    want = "absent / False (the function's value re-enters an Output)"
+                rs.append(Res(f"C16.once.wrappers.emitted.force_unescaped_sites.line{ch.lineno}", "discharged" if ok else "refuted", "ast", 0,
+                              f"compiler.py:{ch.lineno} {where}: force_unescaped = {ast.unparse(fu[0]) if fu else 'absent'}; required {want}", "table",
+                              None if ok else {"method": where, "line": ch.lineno, "force_unescaped": ast.unparse(fu[0]) if fu else None, "schema": "def loop def macro"}))
+            walk(ch, q)
+
+    walk(tree, [])
+    rs.append(Res("C16.once.wrappers.emitted.force_unescaped_sites.count", "discharged" if n_sites >= 2 else "refuted", "ast", 0, f"{n_sites} call sites of return_buffer_contents", "table",
+                  None if n_sites >= 2 else {"count": n_sites}))
+    return rs
+
+
+def emitted_wrapper_tasks():
+    ts = []
+    for buf in (None, "t_buf"):
+        t = K.CatEmitTask("C16", "C16.once.wrappers.emitted.visit_For", "jinja2.compiler:CodeGenerator.visit_For", N.For, emitted_wrapper_pred,
+                          mode="stmts", buffers=(buf,), replay_fn=native_once, node_fields={"recursive": True}, min_paths=6)
+        ts.append(t)
+    for nm, mode in (("Filter", "expr"), ("AssignBlock", "stmts"), ("FilterBlock", "stmts")):
+        ts.append(K.CatEmitTask("C16", f"C16.once.wrappers.emitted.visit_{nm}", f"jinja2.compiler:CodeGenerator.visit_{nm}", getattr(N, nm), emitted_wrapper_pred,
+                                mode=mode, buffers=(None, "t_buf"), replay_fn=native_once, min_paths=2))
+
+    def one_param(st):
+        from pyvc.values import HList
+        return {"args": st.alloc(HList(items=[emit.make_node(st, N.Name, "node.args[0]")]), initial=True), "defaults": st.alloc(HList(items=[]), initial=True)}
+
+    for cls in ("Macro", "CallBlock"):
+        t = K.CatEmitTask("C16", f"C16.once.wrappers.emitted.macro_body.{cls}", "jinja2.compiler:CodeGenerator.macro_body", getattr(N, cls), emitted_wrapper_pred,
+                          mode="stmts", buffers=(None,), replay_fn=native_once, node_fields=one_param, configure=K.emit_configure, min_paths=4)
+        t.bound_text = "parameter list of the macro fixed to one symbolic parameter without default"
+        ts.append(t)
+    ts.append(FnTask("C16", "C16.once.wrappers.emitted.force_unescaped_sites", force_unescaped_sites, "table", native_once))
+    return ts
+
+
+# =====================================================================================================
 # C16.once.dependency (bounded) and native oracle
 # =====================================================================================================
 
@@ -274,6 +425,10 @@ def native_once(w=None):
             "{% import 'lib' as l %}{{ l.lm(v) }}{% from 'lib' import lm %}{{ lm(lm(v)) }}",
             "{% include 'inc' %}{% include ['nope', 'inc'] %}",
             "{% for x in [[v, [v]]] recursive %}{% if x is string %}{{ x }}{% else %}{{ loop(x) }}{% endif %}{% endfor %}",
+            "{% macro tree(t) %}{% for x in t recursive %}{% if x is string %}{{ x }}{% else %}[{{ loop(x) }}]{% endif %}{% endfor %}{% endmacro %}{{ tree([v, [v, [v]]]) }}",
+            "{% set s %}{% for x in [v, [v, [v]]] recursive %}{% if x is string %}{{ x }}{% else %}[{{ loop(x) }}]{% endif %}{% endfor %}{% endset %}{{ s }}",
+            "{% macro w() %}<{{ caller() }}>{% endmacro %}{% call w() %}{% for x in [v, [v, [v]]] recursive %}{% if x is string %}{{ x }}{% else %}[{{ loop(x) }}]{% endif %}{% endfor %}{% endcall %}",
+            "{% filter trim %}{% for x in [v, [v, [v]]] recursive %}{% if x is string %}{{ x }}{% else %}[{{ loop(x) }}]{% endif %}{% endfor %}{% endfilter %}",
             "{% filter trim %}{{ v }}{% endfilter %}{% set z | trim %} {{ v }} {% endset %}{{ z }}",
             "{% with a = v %}{{ a }}{% endwith %}{% if v %}{{ v }}{% endif %}{% for c in [v, v] %}{{ c }}{{ loop.index }}{% endfor %}"]
     for is_async in (False, True):
@@ -329,6 +484,7 @@ TASKS = (
     + [FnTask("C16", "C16.once.forward.extends_tail", extends_tail, "table", native_once),
        FnTask("C16", "C16.once.forward.escape_inventory", escape_inventory, "table", native_once)]
     + [OnceWrapper("C16", f"C16.once.wrappers.{w}", w, ["markup_iff_autoescape", "text_is_generated_output_once"]) for w in WRAPPERS]
+    + emitted_wrapper_tasks()
     + [FnTask("C16", "C16.once.dependency", dependency, "bounded", native_once)]
 )
 
